@@ -101,6 +101,8 @@ def compile_clause(text, params):
 def eval_clause(text, params, env_now, env_old, extra=None):
     code = compile_clause(text, params)
     env = dict(HELPERS)
+    from . import prims as _prims
+    env.update(_prims.NATIVE_SPEC)
     if extra:
         env.update(extra)
     env.update(env_now)
